@@ -58,10 +58,15 @@ deriving Repr, DecidableEq
 def refsOf (ts : List ArrayType) : List String :=
   ts.filterMap fun t => match t.unwrapArray with | .ident i => some i | _ => none
 
+/-- the name a typedef asks the index about: only an identifier is looked up (a primitive never is) -/
+def BasicType.identRefs : BasicType → List String
+  | .ident i => [i]
+  | _ => []
+
 def gitemOf : Item → Option GItem
   | .struct s => some ⟨s.name, s.innerTypes.any (·.unwrapArray.isOpaque), refsOf s.innerTypes⟩
   | .union u => some ⟨u.name, u.innerTypes.any (·.unwrapArray.isOpaque), refsOf u.innerTypes⟩
-  | .typedef t => some ⟨t.alias.unwrapArray.asStr, t.target.isOpaque, [t.target.asStr]⟩
+  | .typedef t => some ⟨t.alias.unwrapArray.asStr, t.target.isOpaque, t.target.identRefs⟩
   | _ => none
 
 def GItem.hit (idx : List String) (it : GItem) : Bool := it.own || it.refs.any (fun r => idx.contains r)
